@@ -213,6 +213,7 @@ Proof.
     unfold pt_finish. destruct (nlt ops _ (e_now e)); [intros H; injection H as <-; reflexivity|].
     destruct (_ <? _)%nat; [destruct (e_pt_ok e)|]; discriminate.
   - destruct (pyfloat orc st) as [t0|]; [|intros H; injection H as <-; reflexivity].
+    destruct (c_start_check cf && negb (nfinite ops t0)); [intros H; injection H as <-; reflexivity|].
     destruct (nlt ops t0 (e_now e)) eqn:Hp; [intros H; injection H as <-; reflexivity|].
     destruct (pid =? 0) eqn:Hpid; cbn [negb]; [|intros H; injection H as <-; reflexivity].
     apply Z.eqb_eq in Hpid. subst pid. unfold pt_finish. rewrite (Hlaw t0 (e_now e) Hp).
